@@ -139,13 +139,16 @@ def strCopy (dest : Buf) (ndest : Nat) (src : Option Buf) (nsrc : Int) : Res Buf
 
 /-! ### ShroudStrBlankFill -/
 
-/-- `int nm = strlen(dest); if (ndest > nm) memset(dest+nm,' ',ndest-nm);` -/
-def strBlankFill (dest : Buf) (ndest : Nat) : Res Buf :=
-  (strlen dest).bind fun len =>
-  let nm := narrow32 len
+/-- `if (ndest > nm) memset(dest+nm,' ',ndest-nm);` for the `int nm` (negative after a wrap-around:
+    the fill starts before the buffer) -/
+def strBlankFillTail (dest : Buf) (ndest : Nat) (nm : Int) : Res Buf :=
   if (ndest : Int) > nm then
     (if nm < 0 then .oob else memset dest nm.toNat BLANK (ndest - nm.toNat))
   else .ok dest
+
+/-- `int nm = strlen(dest); if (ndest > nm) memset(dest+nm,' ',ndest-nm);` -/
+def strBlankFill (dest : Buf) (ndest : Nat) : Res Buf :=
+  ((strlen dest).map narrow32).bind (strBlankFillTail dest ndest)
 
 /-! ### ShroudStrAlloc / ShroudStrFree -/
 
@@ -212,6 +215,29 @@ def allocatableResult (ctx : Option Buf × Nat) : Res Buf :=
 
 def charScalarResult (dest : Buf) (len : Nat) (c : Nat) : Res Buf :=
   (memset dest 0 BLANK len).bind fun d => wr d 0 c
+
+/-! ### std::vector<std::string> arguments (`c_vector_*_buf_string`): CHARACTER(len) a(size) -/
+
+/-- `ShroudStrCopy(c_var + off, ...)`: the helper is handed a pointer into the array -/
+def strCopyAt (dest : Buf) (off ndest : Nat) (src : Option Buf) (nsrc : Int) : Res Buf :=
+  if off ≤ dest.length then (strCopy (dest.drop off) ndest src nsrc).map (dest.take off ++ ·) else .oob
+
+/-- `for (i < n) { v.push_back(std::string(BBB, ShroudLenTrim(BBB, len))); BBB += len; }` -/
+def vecStringIn (src : Buf) (len : Nat) (off : Nat) : Nat → Res (List (List Nat))
+  | 0 => .ok []
+  | k + 1 =>
+    (lenTrimAt src off len).bind fun nt =>
+    (memcpy (List.replicate nt UNINIT) 0 src off nt).bind fun e =>
+    (vecStringIn src len (off + len) k).bind fun rest =>
+    .ok (e :: rest)
+
+/-- `n = min(v.size(), size); for (i < n) { ShroudStrCopy(BBB, len, v[i].data(), v[i].size()); BBB += len; }` -/
+def vecStringOut (dest : Buf) (len : Nat) : Nat → Nat → List (List Nat) → Res Buf
+  | _, 0, _ => .ok dest
+  | _, _ + 1, [] => .ok dest
+  | off, k + 1, v :: vs =>
+    (strCopyAt dest off len (some (v ++ [NUL])) (narrow32 v.length)).bind fun d =>
+    vecStringOut d len (off + len) k vs
 
 /-! ### reference semantics (not derived from Shroud code) -/
 
